@@ -202,12 +202,12 @@ theorem buildProcs_sat (F : Flags) (htab : fromFMP4Decodable = true) :
     simp only [buildTracks, List.map_cons, buildProcs, hc, procInitialize, hdec, if_true]
     simp only [Bind.bind, Res.bind]
     have hinit' : InitOK its' := fun t ht => hinit t (List.mem_cons_of_mem _ ht)
-    have hacc' : ProcsOK ((it.id, { track := gidx, clockRate := it.timeScale, hasDecoder := true }) :: acc) := by
+    have hacc' : ProcsOK ((it.id, { track := gidx, clockRate := it.timeScale, hasDecoder := true, decoder := decoderOf (some c) }) :: acc) := by
       intro p hp
       cases List.mem_cons.mp hp with
       | inl h => subst h; exact ⟨rfl, hit.1⟩
       | inr h => exact hacc p h
-    have hseen' : ∀ t ∈ seen ++ [it], (((it.id, ({ track := gidx, clockRate := it.timeScale, hasDecoder := true } : Proc)) :: acc).lookup t.id).isSome = true := by
+    have hseen' : ∀ t ∈ seen ++ [it], (((it.id, ({ track := gidx, clockRate := it.timeScale, hasDecoder := true, decoder := decoderOf (some c) } : Proc)) :: acc).lookup t.id).isSome = true := by
       intro t ht
       cases List.mem_append.mp ht with
       | inl h => exact lookup_cons_isSome (hseen t h)
